@@ -205,3 +205,11 @@ def r6_write_macro(text, log):
             call = f"fmt_model::unknown({dest})"
         log.append(("R6", f"write!({dest}, {lit}, ..) -> {call}"))
         text = apply_edits(text, [(toks[k].start, toks[c].end, call)])
+
+
+def r8_strip_crate_prefix(text, log):
+    """R8: absolute paths of the crate in macro output (`::microscpi::X`) refer to the unit's own items `X`"""
+    new, k = re.subn(r"::\s*microscpi\s*::\s*", "", text)
+    if k:
+        log.append(("R8", f"`::microscpi::` prefix removed ({k} occurrences)"))
+    return new
